@@ -323,6 +323,30 @@ func runC03(c *Ctx) {
 				nu++
 				useq[fn.Name()]++
 				key := fn.Name() + sprintf("|unary#%d", useq[fn.Name()])
+				// NOT binds looser than every comparison/predicate operator and tighter than AND: its operand is parsed by
+				// the function that parses the operands of AND (a fact of SQL, like the operator order above)
+				isNot := false
+				for _, ref := range core.Referrers(a) {
+					fa, ok := ref.(*ssa.FieldAddr)
+					if !ok || core.FieldName(fa.X.Type(), fa.Field) != "Operator" {
+						continue
+					}
+					for _, r2 := range core.Referrers(fa) {
+						if st, ok := r2.(*ssa.Store); ok && st.Addr == ssa.Value(fa) {
+							if g, ok := st.Val.(*ssa.Const); ok && g.Value != nil {
+								// the UnaryOperator constant named Not
+								if cn := constNameOf(p, st.Val.Type(), g); cn == "Not" {
+									isNot = true
+								}
+							}
+						}
+					}
+				}
+				andFn := levelFn["AND"]
+				if isNot && andFn != nil && len(levels) == 1 && leftCallee[andFn] != "" && levels[0] != leftCallee[andFn] {
+					r.Violate("unary-operand", key, p.Pos(a.Pos()), "the operand of NOT is parsed by "+levels[0]+", but the operands of AND are parsed by "+leftCallee[andFn]+": NOT then binds tighter than the comparison and predicate operators (`NOT a = b` groups as `(NOT a) = b`)")
+					continue
+				}
 				if len(levels) <= 1 {
 					r.OK("unary-operand", key, p.Pos(a.Pos()), "operand via "+strings.Join(setKeys(srcs), "/"))
 				} else {
@@ -382,4 +406,19 @@ func collectTokenTests(v ssa.Value, names map[int64]string, out map[string]bool,
 			collectTokenTests(e, names, out, depth+1)
 		}
 	}
+}
+
+// constNameOf: the name of the package-level constant of type t whose value equals c (first match), or "".
+func constNameOf(p *core.Prog, t types.Type, c *ssa.Const) string {
+	n := core.NamedOf(t)
+	if n == nil || n.Obj().Pkg() == nil {
+		return ""
+	}
+	scope := n.Obj().Pkg().Scope()
+	for _, name := range scope.Names() {
+		if cst, ok := scope.Lookup(name).(*types.Const); ok && types.Identical(cst.Type(), t) && constant.Compare(cst.Val(), token.EQL, c.Value) {
+			return name
+		}
+	}
+	return ""
 }
